@@ -1,5 +1,5 @@
 (* C27 — property theorems. Statements are pinned by props/C27.json. *)
-From PV Require Import Lib.Base C27.Model C27.Proofs.
+From PV Require Import Lib.Base C27.Model C27.Proofs C27.Flagged.
 Open Scope Z_scope.
 
 Definition wf_cfg (c : cfg) : Prop := 0 <= max_peers c /\ 0 <= max_warm c /\ 0 <= max_hot c.
@@ -59,6 +59,13 @@ Theorem flagged_peer_banned_when_categorized : forall c p pr0 s pr1 s1,
   PInv c pr0 -> viol s = true \/ errc s > max_err c ->
   categorize c p pr0 s = Ok (pr1, s1) -> In p (banned pr1).
 Proof. exact categorize_flagged. Qed.
+
+(* a peer that is already banned, or whose violation flag is set, or whose error count exceeds the
+   threshold (it will be banned the next time it is categorised) is not connected by the next step,
+   whatever that step is: the promotion visitor runs before the connection visitor in every pass *)
+Theorem flagged_peer_never_connected : forall c st e st' out p,
+  Inv c st /\ TagInv st -> doomed c st p -> step c st e = Ok (st', out) -> ~ In (OConnect p) out.
+Proof. exact flagged_never_connected. Qed.
 
 (* non-vacuity: a history that fills warm, hot and banned, emits Connect, and satisfies the invariant *)
 Definition cfgB := mkCfg 3 2 1 1.
